@@ -51,3 +51,31 @@ Lemma paths_as_modelled :
   runs_pass_on ["CacheKind"; "Local"] 0 HotReloadingData_use_static_ref = true /\
   fn_body HotReloadingData_clear_local_cache = [ESemi (EMethod (EField (EPath ["self"]) "to_reload") "clear" [])].
 Proof. vm_compute. repeat split. Qed.
+
+From AM Require Gen.Deps.
+(* every registration reaches DepsGraph::insert (Tie/Graph.v: insert_wf), unconditionally: the reloader hands the key, the
+   dependencies and the type of an AssetReloadInfos to insert_asset, which is `insert` on the
+   asset's node and nothing else (a registration is never dropped because the node exists) *)
+Definition insert_asset_wf (f : fn_def) : bool :=
+  match fn_body f with
+  | [EMethod (EPath ["self"]) "insert"
+       [ECall (EPath ["Dependency"; "Asset"]) [EPath ["asset_key"]]; EPath ["deps"]; EPath ["typ"]]] => true
+  | _ => false
+  end.
+Definition add_asset_msg_wf (f : fn_def) : bool :=
+  match fn_body f with
+  | [ELetS (PTupleStruct ["AssetReloadInfos"] [PIdent k None; PIdent d None; PIdent t None]) (Some (EPath ["infos"])) None;
+     ESemi (EMethod (EField (EPath ["self"]) "deps") "insert_asset" [EPath [k']; EPath [d']; EPath [t']])] =>
+      String.eqb k k' && String.eqb d d' && String.eqb t t'
+  | _ => false
+  end.
+Lemma registrations_reach_the_graph :
+  insert_asset_wf Gen.Deps.DepsGraph_insert_asset = true /\
+  add_asset_msg_wf HotReloadingData_add_asset = true.
+Proof. vm_compute. split; reflexivity. Qed.
+
+(* the cache view the reloader loads through defines the accessors only: it too uses RawCache's
+   default add_asset *)
+Lemma borrowed_cache_uses_the_default_add_asset :
+  fn_body BorrowedCache_raw_items = [EPath ["assets"]; EPath ["get_source"]; EPath ["reloader"]].
+Proof. vm_compute. reflexivity. Qed.
